@@ -24,3 +24,15 @@ Print Assumptions C08_simpleaudio_stateless.
 Example C08_simpleaudio_example :
   dec_run [mkPkt 7 0 true []; mkPkt 7 9 false [1]] = [DErr; DFrame [1]].
 Proof. reflexivity. Qed.
+
+(* ---- the translated kernel (tools/go2coq, spec.d/simpleaudio.txt): len(pkt.Payload) == 0 is the test of Model.dec ---- *)
+From Coq Require Import ZArith.
+From GVG Require Import Kern.
+From GV_simpleaudio Require Import BridgeLib Bridge.
+Open Scope Z_scope.
+Theorem C08_simpleaudio_kernels_are_the_code : forall pl : bytes,
+  k_simpleaudio_dec_empty (Z.of_N (nlen pl)) = (nlen pl =? 0)%N.
+Proof. exact dec_kernels_are_the_code. Qed.
+Print Assumptions C08_simpleaudio_kernels_are_the_code.
+Example C08_simpleaudio_example_kernels : k_simpleaudio_dec_empty 0 = true /\ k_simpleaudio_dec_empty 1 = false.
+Proof. vm_compute. repeat split. Qed.
